@@ -4,6 +4,7 @@
 use vstd::prelude::*;
 verus! {
 //@ include prelude/types.rs
+//@ include prelude/combinators.rs
 pub uninterp spec fn pathbuf_view(p: &std::path::PathBuf) -> Seq<char>;
 /// `Option<String>::as_deref`
 pub uninterp spec fn as_deref_rel<T: core::ops::Deref>(o: &Option<T>, r: Option<&T::Target>) -> bool;
